@@ -75,7 +75,7 @@ R = [
     (r"^ToUnicodeCMap::get::\{closure#0\}$", r"unwrap", r"last_mut", "SAFE", "targets are parsed with many1 (>= 1 unit); ToUnicodeCMap::put is crate-internal in effect (public put requires non-empty dst)"),
     (r"^ToUnicodeCMap::put$", r"rangemap-insert", r"", "SAFE", "from_sections rejects end < start before calling put; put_char passes start == end"),
     (r"^common_data_structures::decode_text_string::\{closure#0\}$", r"unwrap", r"try_into", "SAFE", "the closure's other arm handled len == 1; chunks(2) yields 1 or 2 elements", [{'kind': 'dominating', 'cond': '^Eq\\(len\\(&\\*\\$\\d+\\),1\\)$', 'truth': False, 'where': 'self'}]),
-    (r"^encodings::bytes_to_string$", r"unwrap", r"from_utf16", "SAFE", "no cell of the predefined encoding tables is a surrogate (proved exhaustively by C16 rule 1)"),
+    (r"^encodings::bytes_to_string$", r"unwrap", r"from_utf16", "SAFE", "no cell of the predefined encoding tables is a surrogate (re-verified here over all [Option<u16>; 256] constants; also C16 rule 1)", [{'kind': 'no-surrogates', 'min_tables': 7}]),
     (r"^filters::png::decode_frame$", r"alloc:resize", r"", "SAFE", "preceded by try_reserve(bytes_per_row)? on the same empty vector", [{'kind': 'call-arg', 'fn': 'filters::png::decode_frame', 'callee': 'Vec::<.*>::try_reserve$', 'arg': 1, 'matches': '^\\$\\d+$'}]),
     (r"^filters::png::decode_frame$", r"overflow:Add|index:RangeFrom", r"pos", "SAFE", "pos < content.len() (loop condition), then read_exact of bytes_per_row succeeded: pos + 1 + bytes_per_row <= len", [{'kind': 'dominating', 'cond': '^Lt\\(\\$\\d+,len\\(&\\*\\$\\d+\\)\\)$', 'truth': True, 'where': 'self'}]),
     (r"^filters::png::decode_row$", r"bounds", r"len\(previous\)", "SAFE", "precondition previous.len() >= current.len(): the only in-crate caller decode_frame resizes both rows to bytes_per_row"),
